@@ -13,7 +13,7 @@ TIERS = {'quick': {'runs': 12000, 'budget_s': 45}, 'thorough': {'runs': 900000, 
 RULE = ('one run = one seeded history (3-20 ops) on one engine of: load a compiled snippet (9 snippets with tagged answers, clause-local cuts, '
         'cross-snippet calls, calls to natives, several arities of one name) from a string or through a fake file, with overwrite on/off; failing '
         'loads (Python syntax error, exception raised after the k-th def, file not found / permission denied / undecodable / I/O error); '
-        'register_function with inferred, explicit and variadic arity (also under reserved API names); assert_fact front/back; clear. After EVERY '
+        'register_function with inferred, explicit and variadic arity (also under reserved API names); assert_fact front/back; clear; calls kept suspended across any of these and resumed later. After EVERY '
         'op all 14 name/arity pairs (defined, undefined, other arities, reserved names) are read back and compared with a list-of-definitions '
         'model. A case = one op + read-back; non-trivial = the op changed the model or was a failing load on a non-empty engine; distinct = hash '
         'of (op, model state before the op)')
@@ -25,7 +25,7 @@ ASSUMPTIONS = [
 COMPONENTS = {'real': ['yldprolog.engine query/load_script_from_string/load_script_from_file/register_function/chain_functions/assert_fact/clear', 'compiler output for the snippets'],
               'stub': ['file system seen by load_script_from_file (in-memory fake open, injects I/O errors)', 'native predicates (tagged answers)'],
               'oracle': ['definition-table model: per name/arity facts first, then the chain of definitions registered for exactly that arity, variadic only if none, each definition with its own cut']}
-REQUIRED_PROBES = ('op_load_overwrite', 'op_load_append', 'op_loadfail_syntax', 'op_loadfail_raise', 'op_loadfail_io', 'op_reg_inferred', 'op_reg_explicit',
+REQUIRED_PROBES = ('suspended_call_resumed_after_change', 'op_load_overwrite', 'op_load_append', 'op_loadfail_syntax', 'op_loadfail_raise', 'op_loadfail_io', 'op_reg_inferred', 'op_reg_explicit',
                    'op_reg_variadic', 'op_assert', 'op_clear', 'chain_of_2plus_definitions', 'variadic_used', 'variadic_shadowed_by_exact', 'reserved_name_registered',
                    'load_via_file')
 
@@ -75,9 +75,14 @@ def gen(seed, tier):
         elif k < 0.72:
             name, ar = rng.choice(REG_TARGETS)
             ops.append(['reg', name, ar, rng.choice(['inferred', 'explicit', 'variadic']), rng.random() < 0.5])
-        elif k < 0.93:
+        elif k < 0.86:
             name, ar = rng.choice(ASSERT_TARGETS)
             ops.append(['assert', name, ar, rng.random() < 0.3])
+        elif k < 0.9:
+            name, ar = rng.choice([('p', 1), ('p', 1), ('r', 1), ('sub', 1), ('main', 1), ('p', 2), ('q', 2)])
+            ops.append(['qstart', name, ar])
+        elif k < 0.97:
+            ops.append(['qstep', rng.randrange(2)])
         else:
             ops.append(['clear'])
     return {'ops': ops}
@@ -92,6 +97,10 @@ def show_op(op):
         return 'register_function %s/%d %s yields %s' % (op[1], op[2], op[3], op[4])
     if op[0] == 'assert':
         return 'assert_fact %s/%d %s' % (op[1], op[2], 'front' if op[3] else 'back')
+    if op[0] == 'qstart':
+        return 'call %s/%d and take its first answer (keep the generator suspended)' % (op[1], op[2])
+    if op[0] == 'qstep':
+        return 'next answer of suspended call #%d' % op[1]
     return op[0]
 
 
@@ -124,6 +133,11 @@ class Model:
         if kind == 'py':
             return [[d[1]] + [None] * (key[1] - 1)] if key[1] >= 1 else [[]]
         raise ValueError(d)
+
+    def flat(self, key):
+        """True if the answers of key do not depend on calls made later during the enumeration"""
+        ds = self.defs.get(key) or (self.var.get(key[0]) or [] if key[0] not in RESERVED else [])
+        return all(d[0] in ('rows', 'py') for d in ds)
 
     def answers(self, key, depth=0):
         if depth > 8:
@@ -175,11 +189,46 @@ def execute(plan):
                 yield yv
         return impl
 
+    suspended = []       # (generator, variables, answers expected when the call was made, next index)
     for op in plan['ops']:
         kind = op[0]
         before = m.state()
         log.count('cases')
         try:
+            if kind in ('qstart', 'qstep'):
+                # a call resolves "at the moment it is made": what a suspended call still yields is fixed then,
+                # whatever is loaded, registered, asserted or cleared while it is suspended
+                if kind == 'qstart':
+                    key = (op[1], op[2])
+                    if len(suspended) >= 2 or not m.flat(key):
+                        log.ev('noop')
+                        continue
+                    vs = [yp.variable() for _ in range(key[1])]
+                    entry = [iter(yp.query(key[0], vs)), vs, m.answers(key)[:READ_CAP], 0, key, m.state()]
+                    suspended.append(entry)
+                else:
+                    if not suspended:
+                        log.ev('noop')
+                        continue
+                    entry = suspended[op[1] % len(suspended)]
+                    if entry[5] != m.state():
+                        log.count('suspended_call_resumed_after_change')
+                        log.key(('resume-after-change', entry[4], entry[3], before))
+                try:
+                    next(entry[0])
+                    got = [to_python(v) for v in entry[1]]
+                except StopIteration:
+                    got = None
+                want = entry[2][entry[3]] if entry[3] < len(entry[2]) else None
+                log.ev(kind, entry[4][0], entry[4][1], entry[3], got is not None)
+                if got != want:
+                    log.violation('suspended-call-differs', {'call': '%s/%d' % entry[4], 'answer_no': entry[3] + 1, 'engine': got, 'resolved_when_called': want,
+                                                             'op': show_op(op)})
+                    break
+                entry[3] += 1
+                if got is None:
+                    suspended.remove(entry)
+                continue
             if kind == 'load':
                 _, i, ow, via = op
                 log.count('op_load_overwrite' if ow else 'op_load_append')
@@ -272,6 +321,8 @@ def execute(plan):
             diff['after'] = show_op(op)
             log.violation('resolution-differs' if kind != 'loadfail' else 'failing-load-changed-engine', diff)
             break
+    for entry in suspended:
+        entry[0].close() if hasattr(entry[0], 'close') else None
     E.open = open
     return log.result()
 
